@@ -13,6 +13,8 @@ def run_campaign(chk, b, profiles, ncases, facets, sig_prefix, nontrivial_fn, ru
     specs = []
     for i in range(ncases):
         prof = profiles[i % len(profiles)]
+        if i % 60 == 7:
+            prof = "scale"
         specs.append(dict(seed=R.SEED, idx=i, profile=prof, sizer=sz, scratch=scratch, shimdir=shim,
                           want_table=want_table, names_modes=list(names_modes), permute=permute, nsel=nsel,
                           cut_refs=cut_refs))
